@@ -121,11 +121,11 @@ def harnesses(tier):
                 functions=fn, stubs=stubs, assumptions=assume, budget_s=900),
     ]
     if not q:
-        hs.append(Harness('c07.send_balanced.3out', send_balanced(3, 2), bounds={'outputs': 3, 'clients': '<=3 + 1 new', 'queued requests': '<=2'},
+        hs.append(Harness('c07.send_balanced.3out', send_balanced(3, 1), bounds={'outputs': 3, 'clients': '<=3 + 1 new', 'queued requests': '<=1'},
                           functions=fn, stubs=stubs, assumptions=assume, budget_s=1800))
         hs.append(Harness('c07.recv_balanced.second_hop', recv_balanced(2, 2, 14, 1, 2), bounds={'sources': 2, 'publishes_per_source': 2, 'poll_decisions': 14, 'bal mark': 2},
                           functions=fn, stubs=stubs, assumptions=assume, budget_s=1800))
-        hs.append(Harness('c07.recv_balanced.3src', recv_balanced(3, 2, 12, 0, True), bounds={'sources': 3, 'publishes_per_source': 2, 'poll_decisions': 12},
+        hs.append(Harness('c07.recv_balanced.3src', recv_balanced(3, 1, 12, 2, True), bounds={'sources': 3, 'publishes_per_source': 1, 'poll_decisions': 12, 'not_yet_answers': 2},
                           functions=fn, stubs=stubs, assumptions=assume, budget_s=1800))
     from props import s_level as SL
     tw = SL.c07_balance(2, {}, {'pW1': 0, 'pW2': 0}, planted=True)
